@@ -51,9 +51,15 @@ TextRank(str) == IF \E i \in 1..Len(TextDomain) : TextDomain[i] = str
                  ELSE 0
 
 \* -------- arithmetic (NULL-propagating; exact) ------------------------
+\* TLC integers are 32-bit: arithmetic is given a value only while numerator
+\* and denominator stay small enough for every intermediate product to fit;
+\* beyond that the specification says nothing (Undef)
+Bound == 30000
+Small(v) == v.k # "num" \/ (Abs(v.n) < Bound /\ v.d < Bound)
 Arith2(a, b, f(_, _)) ==
   IF IsUndef(a) \/ IsUndef(b) THEN Undef
   ELSE IF IsNull(a) \/ IsNull(b) THEN Null
+  ELSE IF ~Small(a) \/ ~Small(b) THEN Undef
   ELSE f(a, b)
 
 \* booleans take part in arithmetic as 0/1 only on engines with dynamic
@@ -91,8 +97,11 @@ Neg(a) == IF IsUndef(a) THEN Undef ELSE IF IsNull(a) THEN Null
 RECURSIVE IntPow(_, _)
 IntPow(b, e) == IF e = 0 THEN 1 ELSE b * IntPow(b, e - 1)
 \* ** : only natural exponents are given a value by the models
+RECURSIVE PowFits(_, _)
+PowFits(b, e) == e = 0 \/ (PowFits(b, e - 1) /\ Abs(IntPow(b, e - 1)) * Abs(b) < Bound)
 Pow(a, b) == Arith2(ToNum(a), ToNum(b),
                 LAMBDA x, y : IF y.d # 1 THEN Undef
+                              ELSE IF Abs(y.n) > 12 \/ ~PowFits(x.n, Abs(y.n)) \/ ~PowFits(x.d, Abs(y.n)) THEN Undef
                               ELSE IF y.n >= 0 THEN Num(IntPow(x.n, y.n), IntPow(x.d, y.n))
                               ELSE IF x.n = 0 THEN Undef
                               ELSE Num(IntPow(x.d, -y.n), IntPow(x.n, -y.n)))
@@ -109,6 +118,7 @@ Comparable(a, b) == (a.k = "text") = (b.k = "text")
 Rel2(a, b, p(_)) ==
   IF IsUndef(a) \/ IsUndef(b) THEN Undef
   ELSE IF IsNull(a) \/ IsNull(b) THEN Null
+  ELSE IF ~Small(ToNum(a)) \/ ~Small(ToNum(b)) THEN Undef
   ELSE IF ~Comparable(a, b) THEN Undef
   ELSE B(p(Cmp(a, b)))
 
